@@ -396,6 +396,30 @@ Theorem C10_data_width_spec :
 Proof. exact data_width_spec. Qed.
 Print Assumptions C10_data_width_spec.
 
+(* ---- the second width path (round 5): the markdown renderer sizes its columns in plain Python ---- *)
+
+(* max(lengths of the non-null rendered values + [4]) as display.markdown writes it IS what
+   calculate_data_width computes - for every column, falsy values (False, 0, '', Decimal('0.000')) included:
+   only None is skipped. *)
+Theorem C10_markdown_width_agrees :
+  forall (vals : list (option (list N))), md_data_width vals = data_width vals.
+Proof. exact md_width_agrees. Qed.
+Print Assumptions C10_markdown_width_agrees.
+
+(* ... so a markdown column is min(max(len(name), compiled width of the head rows), max_column_width). *)
+Theorem C10_markdown_col_width :
+  forall (name_len : Z) (vals : list (option (list N))) (limit maxw : Z),
+  md_col_width name_len vals limit maxw =
+  Z.min (Z.max name_len (data_width (if (0 <? limit)%Z then firstn (Z.to_nat limit) vals else vals))) maxw.
+Proof. intros name_len vals limit maxw. unfold md_col_width, md_head. rewrite md_width_agrees. reflexivity. Qed.
+Print Assumptions C10_markdown_col_width.
+
+Example C10_nonvacuous_markdown :   (* 'False' (5) under the header 'ok': width 5; limit 1 hides it; cap 3 *)
+  md_col_width 2 [None; Some [70; 97; 108; 115; 101]%N] 5 30 = 5%Z /\
+  md_col_width 2 [None; Some [70; 97; 108; 115; 101]%N] 1 30 = 4%Z /\
+  md_col_width 2 [None; Some [70; 97; 108; 115; 101]%N] 0 3 = 3%Z.
+Proof. repeat split; reflexivity. Qed.
+
 (* Non-vacuity: a rectangular 3x2 frame, indexes in range with a repeat, limit 2. *)
 Example C10_nonvacuous_ok :
   rectangular Z 2 [[1; 2]; [3; 4]; [5; 6]]%Z /\
